@@ -2,7 +2,7 @@
 import vlib, gen_conv, gen_units, docs
 from vlib import hx, unhx, case_line, show
 
-THEOREMS = ["C06_roundtrip", "C06_lines", "C06_quote_value_safe", "C06_write_calls"]
+THEOREMS = ["C06_roundtrip", "C06_lines", "C06_quote_value_safe", "C06_write_calls", "C06_generated_services_have_no_newline", "C06_generated_services_line_count", "C06_conversion_adds_no_newline", "C06_parsed_units_have_no_newline"]
 
 
 def inventory(ctx):
